@@ -152,7 +152,17 @@ class Tap:
             raw = val.value if isinstance(val, ps._DynamicParamWrapper) else val
             if _is_tracer(raw):
                 aval = raw.aval
-                caps.append({"name": name, "kind": "dynamic", "shape": [str(d) for d in aval.shape],
+                # inside a function body the forwarded input param is the body's own input for it
+                kind = "dynamic"
+                try:
+                    var = getattr(raw, "val", None)
+                    scoped = (getattr(ctx, "_call_param_value_by_name", None) or {}).get(name)
+                    if name in call_names and scoped is not None and var is not None \
+                            and ctx.builder._var2val.get(var) is scoped:
+                        kind = "callInput"
+                except Exception:
+                    pass
+                caps.append({"name": name, "kind": kind, "shape": [str(d) for d in aval.shape],
                              "dtype": str(aval.dtype)})
             elif name in call_names and name in literal_map and _same_literal(raw, literal_map[name]):
                 # ground truth: this keyword argument IS the forwarded input param
